@@ -13,7 +13,7 @@ PROPERTY = 'C15'
 LEVEL = 'exploration'
 RULE = (
     "Case = one-way latency (0.5 ms..2 s), per-user list of server behaviours per AddUser attempt (exists / missing / "
-    "silent, cyclic), <=8 track_user/untrack_user calls for users u0,u1,u2 (in a quarter of the multi-user cases opened by a burst: every user gets a reason 0..5 iterations apart, so several attempts are in flight at once) with flags from {REQUESTED, TRANSFER, FRIEND} "
+    "silent, cyclic), <=8 track_user/untrack_user calls for users u0 'Miles', u1 'miles' (names differing only in case, two distinct users) and u2 (in a quarter of the multi-user cases opened by a burst: every user gets a reason 0..5 iterations apart, so several attempts are in flight at once) with flags from {REQUESTED, TRANSFER, FRIEND} "
     "(single, sometimes combined), each followed by a gap: 0..16 loop iterations, a virtual delay 1 ms..700 s (biased to "
     "the neighbourhood of 10 s, 20 s, 600 s), 'retry' (wait until the exact instant at which the pending retry of that "
     "user fires, then k iterations) or 'reply' (the exact instant at which the AddUser reply reaches the client, then k "
@@ -75,7 +75,8 @@ ASSUMPTIONS = [
 ]
 BUDGET_S = {'quick': 120, 'thorough': 1500}
 
-USERS = ['u0', 'u1', 'u2']
+# u0 and u1 differ only in case (SoulSeek names are case sensitive: two distinct users), u2 is unrelated
+USERS = ['Miles', 'miles', 'u2']
 GLUE_WINDOWS = [0.001, 0.01, 0.3]   # the server collects AddUser answers this long and writes them as one segment
 BEH = ['exists', 'missing', 'silent']
 ANSWER_TIMEOUT = 10.0       # wait_for_server_message(AddUser.Response, timeout=10)
@@ -1270,6 +1271,25 @@ def _enumerated_xfer_cases():
 # ---------------------------------------------------------------------------
 # enumerations
 
+def _enumerated_case_cases():
+    """u0 'Miles' and u1 'miles' have an attempt outstanding at the same moment and the server answers differently."""
+    out = []
+    behs = [([0], [1, 0]), ([1, 0], [0]), ([0], [2, 0]), ([2, 0], [0]), ([1], [2, 0])]
+    glues = [None, {'w': 0, 'rev': False, 'extra': 0}, {'w': 0, 'rev': True, 'extra': 0},
+             {'w': 2, 'rev': False, 'extra': 2}, {'w': 2, 'rev': True, 'extra': 1}]
+    for b0, b1 in behs:
+        for glue in glues:
+            for order in ((0, 1), (1, 0), (0, 2, 1)):
+                for it in (0, 1, 4):
+                    for tail in (12.0, 31.0):
+                        ops = [{'op': 't', 'u': u, 'f': 1 + u % 2, 'gap': ['it', it]} for u in order]
+                        case = {'lat': 0.02, 'full': False, 'beh': [b0, b1, [0]], 'tail': tail, 'ops': ops}
+                        if glue:
+                            case['glue'] = glue
+                        out.append(case)
+    return out
+
+
 def _enumerated_friend_cases():
     """settings.users.friends changed in place while an application FriendListChangedEvent listener is suspended."""
     out = []
@@ -1375,7 +1395,7 @@ def _enumerated_glue_cases():
 
 def run_shard(ctx):
     ctx.enumerate(_enumerated_cases() + _enumerated_xfer_cases() + _enumerated_glue_cases() +
-                  _enumerated_friend_cases())
+                  _enumerated_friend_cases() + _enumerated_case_cases())
     n = 700 if ctx.tier == 'quick' else 20000
     # the transfer-manager tier first: it is the cheaper one and must not be starved by the wall-clock budget
     ctx.explore(xfer_strategy(), 150 if ctx.tier == 'quick' else 4000, salt=1)
